@@ -261,6 +261,54 @@ int run_qsbr() {
       }
       std::printf("retire a=%u\n", j - 1);
     }
+    // a request made by a thread that has not yet observed the latest epoch (the request opens a new interval):
+    // t passes first, this thread passes last and changes the epoch, then t's request fails at every allocation point
+    for (int round = 0; round < 2; ++round) {
+      void* p0 = unodb::detail::allocate_aligned(16);
+      t->on_next_epoch_deallocate(p0
+#ifdef UNODB_DETAIL_WITH_STATS
+                                  , 16
+#endif
+                                  , nullptr);
+      t->quiescent();
+      unodb::this_thread().quiescent();  // epoch changes; t still has the old one
+      void* p = unodb::detail::allocate_aligned(16);
+      auto snap = [&] {
+        std::ostringstream os;
+        os << word() << ',' << t->previous_interval_requests_empty() << ',' << t->current_interval_requests_empty()
+#ifdef UNODB_DETAIL_WITH_STATS
+           << ',' << t->get_current_interval_total_dealloc_size()
+#endif
+            ;
+        return os.str();
+      };
+      const std::string before = snap();
+      unsigned j = 1;
+      for (;; ++j) {
+        bool threw = false;
+        UNODB_DETAIL_FAIL_ON_NTH_ALLOCATION(j);
+        try {
+          t->on_next_epoch_deallocate(p
+#ifdef UNODB_DETAIL_WITH_STATS
+                                      , 16
+#endif
+                                      , nullptr);
+        } catch (const std::bad_alloc&) {
+          threw = true;
+        }
+        UNODB_DETAIL_RESET_ALLOCATION_FAILURE_INJECTOR();
+        if (!threw) break;
+        if (snap() != before) {
+          ++problems;
+          std::printf("PROBLEM: QSBR state changed by a deallocation request (new interval) that failed at allocation #%u: %s -> %s\n", j,
+                      before.c_str(), snap().c_str());
+        }
+        if (j > 8) break;
+      }
+      std::printf("retire-new-interval a=%u\n", j - 1);
+      t->quiescent();
+      unodb::this_thread().quiescent();
+    }
     // pause, then resume with failures
     t->qsbr_pause();
     const auto w2 = word();
